@@ -13,7 +13,8 @@ for p in sorted(glob.glob(os.path.join(ROOT, "seeded", "*", "meta.json"))):
 out = ["# Seeded changes", "",
        "Each directory holds `patch.diff` (apply with `git -C /repo apply`), `demo.cpp` (fails with the patch, passes without) and `meta.json`.",
        "Every change was written by an independent sub-agent that saw only the property text, compiles, passes the repository's own test suite,",
-       "and was confirmed by me in a scratch worktree (`bin/confirm_mutant.sh`). None is ever committed to /repo.", "",
+       "and was confirmed by me in a scratch worktree (`bin/confirm_mutant.sh`). None is ever committed to /repo.",
+       "`agent_prompt.tmpl` is the brief the sub-agents of waves 4 and 5 received (@PROP@ = the property's JSON text, @KINDS@ = what the change must need in order to manifest).", "",
        "The last column is the outcome of the quick check of the change's own property run with the final machinery (`bin/rerun_seeded.sh`), where that was done.", "",
        "| id | change | needs, to manifest | caught by (check: oracle) | missed by | final machinery |", "|---|---|---|---|---|---|"] + rows
 open(os.path.join(ROOT, "seeded", "README.md"), "w").write("\n".join(out) + "\n")
